@@ -138,6 +138,8 @@ class _ReadSourceGenerator:
         prev_bits_type = None
         bits_remaining = 0
         bits_rollover = False
+        # Set after a nested structure (or array of them): its own reader decides where it leaves the stream
+        position_known = True
 
         def flush() -> Iterator[str]:
             if current_block:
@@ -145,12 +147,13 @@ class _ReadSourceGenerator:
                 current_block[:] = []
 
         def align_to_field(field: Field) -> Iterator[str]:
-            nonlocal current_offset
+            nonlocal current_offset, position_known
 
-            if field.offset is not None and field.offset != current_offset:
+            if field.offset is not None and (field.offset != current_offset or not position_known):
                 # If a field has a set offset and it's not the same as the current tracked offset, seek to it
                 yield f"stream.seek(o + {field.offset})"
                 current_offset = field.offset
+                position_known = True
 
             if self.align and field.offset is None:
                 yield f"stream.seek(-stream.tell() & ({field.alignment} - 1), {io.SEEK_CUR})"
@@ -181,6 +184,7 @@ class _ReadSourceGenerator:
                 yield from flush()
                 yield from align_to_field(field)
                 yield from self._generate_structure(field)
+                position_known = False
 
             # Array of structures and multi-dimensional arrays
             elif issubclass(field_type, (Array, CharArray, WcharArray)) and (
@@ -189,6 +193,7 @@ class _ReadSourceGenerator:
                 yield from flush()
                 yield from align_to_field(field)
                 yield from self._generate_array(field)
+                position_known = False
 
             # Bit fields
             elif field.bits:
